@@ -880,7 +880,9 @@ def op_compress_site(h):
     if rng.integers(0, 2) == 0:
         opts["cutoff"] = 0.0
     if rng.integers(0, 3) == 0:
-        opts["max_bond"] = 64
+        # a cap that never binds: truncation quality is not this property's business (compress_site truncates on the
+        # flat spectrum of the isometric neighbour, so a binding cap changes the state even when the Schmidt rank fits)
+        opts["max_bond"] = 100000
     if canonize and rng.integers(0, 2):
         opts["canonize"] = True
     elif not canonize:
@@ -1304,7 +1306,7 @@ def histories(cx):
     if not _numpy_choice_assumption():
         cx.inconclusive.append("numpy Generator.choice no longer inverts the cdf at one uniform draw: sampling contracts not evaluated")
         return
-    nh = 2800 if cx.quick else 6000
+    nh = 3600 if cx.quick else 12000
     nops = 12 if cx.quick else 60
     only_h = _hist_from_key(cx.only_key) if cx.only_key is not None else None
     skip_to = _hist_from_key(cx.resume_after) if cx.resume_after is not None else None
@@ -1398,7 +1400,7 @@ def circuit_record(cx):
     import quimb.tensor as qtn
 
     warnings.filterwarnings("ignore")
-    nprog = 2400 if cx.quick else 9000
+    nprog = 3000 if cx.quick else 16000
     nsteps = 10 if cx.quick else 24
     only_h = _hist_from_key(cx.only_key) if cx.only_key is not None else None
     skip_to = _hist_from_key(cx.resume_after) if cx.resume_after is not None else None
